@@ -28,7 +28,10 @@ Print Assumptions c02_where_parses.
 
 (* MAIN.  For every chain of Where / Not / Or calls of any length, over units of any form in the
    domain [calls_domx] — raw strings and named-argument strings that gorm parenthesises or that
-   are single factors, maps, structs, single structured conditions, and groups db.Where(db...)
+   are single factors, maps, structs, single structured conditions, nests of clause.And /
+   clause.Or / clause.Not expressions of any depth given to Where or Or ([cdom]: non-empty
+   operand lists, raw leaves as above, no single-operand clause.Or directly under clause.And or at
+   the top, clause.Not over one operand that is not a clause.And), and groups db.Where(db...)
    of such units nested to any depth; Not applied to flat units and to groups of two or more
    members that contain an OR alternative (negated as a whole) or a member with a structured
    negation (every member negated) — the remaining Not-over-group shape is the known finding;
